@@ -513,4 +513,63 @@ theorem okC_of_calls (g i kg : Nat) (n : Int) (hide : Option Name) (hi : i < kg)
       | lit m => simp [hq, exprArg] at this; subst this; rfl
       | var y => simp [hq, exprArg] at this
 
+/-- Run-level form of `exec_dropParam`: from the shape alone. -/
+theorem run_dropParam (ev : Op → Int → Int → Option Int) (prog : Prog) (g i : Nat) (gfn : PFn) (p : Name)
+    (hg : lookup prog g = some gfn) (hp : gfn.params[i]? = some p) (hnd : gfn.params.Nodup)
+    (hall : ∀ fn ∈ prog, okU g i gfn.params.length (hideOf g p fn) fn.body) :
+    ∀ (h : Nat) (fuel : Nat) (vals : List Int),
+      run ev prog h fuel vals =
+        run ev (dropParam g i prog) h fuel (if h = g then vals.eraseIdx i else vals) := by
+  intro h fuel vals
+  unfold run
+  have hlk : lookup (dropParam g i prog) h = (lookup prog h).map (fun fn : PFn =>
+      ({ fn with params := if fn.name = g then fn.params.eraseIdx i else fn.params,
+                 body := dropArgs g i fn.body } : PFn)) :=
+    lookup_map prog (fun fn : PFn =>
+      ({ fn with params := if fn.name = g then fn.params.eraseIdx i else fn.params,
+                 body := dropArgs g i fn.body } : PFn)) (fun _ => rfl) h
+  rw [hlk]
+  cases hl : lookup prog h with
+  | none => rfl
+  | some fn =>
+    have hm := lookup_mem hl
+    simp only [Option.map_some]
+    by_cases hhg : h = g
+    · subst hhg
+      have hfn : fn = gfn := by rw [hl] at hg; exact Option.some.inj hg
+      subst hfn
+      simp only [hm.2, if_true]
+      exact exec_dropParam ev prog h i fn p hl hp hnd hall fuel fn.body (some p) _ _ []
+        (agreeH_of_agree (CpeSem.bindParams_erase p fn.params vals i hp hnd))
+        (by have := hall fn hm.1; simpa [hideOf, hm.2] using this)
+    · have hne : fn.name ≠ g := fun hq => hhg (hm.2.symm.trans hq)
+      simp only [hne, hhg, if_false]
+      exact exec_dropParam ev prog g i gfn p hg hp hnd hall fuel fn.body none _ _ []
+        (agreeH_refl _) (by have := hall fn hm.1; simpa [hideOf, hne] using this)
+
+/-- The shape for parameter `j` survives the removal of a later parameter `i`. -/
+theorem okU_dropArgs (g i j kg : Nat) (hide : Option Name) (hji : j < i) (hi : i < kg) :
+    ∀ (b : PBody), okU g j kg hide b → okU g j (kg - 1) hide (dropArgs g i b) := by
+  intro b
+  induction b with
+  | ret e => intro h; exact h
+  | bin x op e1 e2 k ih => intro h; exact ⟨h.1, h.2.1, h.2.2.1, ih h.2.2.2⟩
+  | print es k ih => intro h; exact ⟨h.1, ih h.2⟩
+  | ite c t e iht ihe => intro h; exact ⟨h.1, iht h.2.1, ihe h.2.2⟩
+  | call x h' args k ih =>
+    intro h
+    obtain ⟨hx, hargs, hk⟩ := h
+    refine ⟨hx, ?_, ih hk⟩
+    by_cases hh : h' = g
+    · simp only [hh, if_true] at hargs ⊢
+      obtain ⟨hlen, hcl⟩ := hargs
+      refine ⟨by rw [List.length_eraseIdx]; simp [hlen, hi], ?_⟩
+      intro j' a hj' ha
+      rw [List.getElem?_eraseIdx] at ha
+      split at ha
+      · exact hcl j' a hj' ha
+      · exact hcl (j' + 1) a (by omega) ha
+    · simp only [hh, if_false] at hargs ⊢
+      exact hargs
+
 end SamVerif.CpeProg
